@@ -3,6 +3,7 @@ package c07
 
 import (
 	"bytes"
+	"encoding/pem"
 	"fmt"
 	"testing"
 
@@ -20,7 +21,7 @@ import (
 // Op is one builder operation of the second direction (database built through
 // the library's own operations).
 type Op struct {
-	Kind  string // append | remove | appendlist
+	Kind  string // append | append_bad (SHA-256 value of a wrong size: must leave a well-formed database) | remove | appendlist
 	Type  string // x509 | sha256 | extmgm
 	Owner hx.Hex // 16 bytes, big-endian fields
 	Data  hx.Hex
@@ -46,7 +47,11 @@ func typeOf(s string) guid.G {
 
 func genOp(t *rapid.T) Op {
 	op := Op{Owner: gen.Owner().Draw(t, "owner").BE()}
-	switch rapid.IntRange(0, 9).Draw(t, "kind") {
+	switch rapid.IntRange(0, 10).Draw(t, "kind") {
+	case 10:
+		op.Kind, op.Type = "append_bad", "sha256"
+		op.Data = gen.FillBytes(t, rapid.SampledFrom([]int{0, 20, 31, 33, 48, 64}).Draw(t, "badlen"))
+		return op
 	case 0, 1, 2, 3, 4:
 		op.Kind = "append"
 	case 5, 6, 7:
@@ -125,11 +130,16 @@ func checkStream(stream []byte) (signature.SignatureDatabase, []esl.List, error)
 		return nil, nil, fmt.Errorf("Marshal into a non-empty buffer does not append the encoding to what was there")
 	}
 	var db2 signature.SignatureDatabase
-	if err := db2.Unmarshal(bytes.NewBuffer(append([]byte{}, stream...))); err != nil {
+	src := append([]byte{}, stream...)
+	if err := db2.Unmarshal(bytes.NewBuffer(src)); err != nil {
 		return nil, nil, fmt.Errorf("Unmarshal rejects a well-formed stream: %v", err)
 	}
+	// the decoded database is a value of its own: the caller may reuse the buffer it was decoded from
+	for i := range src {
+		src[i] ^= 0xa5
+	}
 	if !bytes.Equal(db2.Bytes(), stream) {
-		return nil, nil, fmt.Errorf("Unmarshal+Bytes does not reproduce the input")
+		return nil, nil, fmt.Errorf("Unmarshal+Bytes does not reproduce the input once the source buffer has been reused (the decoded database shares memory with its input)")
 	}
 	return db, want, nil
 }
@@ -179,6 +189,15 @@ func checkCase(c Case) error {
 		owner := adapt.Lib(guid.FromBE(op.Owner))
 		ty := adapt.Lib(typeOf(op.Type))
 		switch op.Kind {
+		case "append_bad":
+			hx.Class("op_append_wrong_size")
+			before := append([]byte{}, db.Bytes()...)
+			if err := db.Append(ty, owner, op.Data); err == nil {
+				return fmt.Errorf("op %d: Append of a %d-byte value as SHA-256 hash reports success", i, len(op.Data))
+			}
+			if !bytes.Equal(db.Bytes(), before) {
+				return fmt.Errorf("op %d: a refused Append changed the database encoding (%d -> %d bytes)", i, len(before), len(db.Bytes()))
+			}
 		case "append":
 			hx.Class("op_append")
 			_ = db.Append(ty, owner, op.Data) // duplicates / wrong sizes are refused; either outcome must leave a well-formed database
@@ -200,7 +219,13 @@ func checkCase(c Case) error {
 		case "appendlist":
 			hx.Class("op_appendlist")
 			l := signature.NewSignatureList(ty)
-			if err := l.AppendBytes(owner, op.Data); err != nil {
+			first := []byte(op.Data)
+			if op.Type == "x509" && len(op.Data)%2 == 0 {
+				// certificates may be handed over as PEM: the list must then hold (and be sized for) the DER bytes
+				first = pem.EncodeToMemory(&pem.Block{Type: "CERTIFICATE", Bytes: op.Data})
+				hx.Class("op_appendlist_pem")
+			}
+			if err := l.AppendBytes(owner, first); err != nil {
 				return fmt.Errorf("op %d: list-level AppendBytes on an empty list fails: %v", i, err)
 			}
 			for _, m := range op.More {
